@@ -165,6 +165,16 @@ example : StoreOk { store := [(7, [[1], []])] } := by
 
 /-! ## 3. handleIncomingFrame never panics -/
 
+/-- **One frame, one packet** (F-09c, also what C09 relies on): whenever the link service dispatches anything, the bytes
+    it hands to the forwarding threads — and which are forwarded on as they are — are exactly ONE TLV: the bare frame,
+    the Fragment field, or the reassembled message. A second packet appended behind the first (a Data `/localhost/…`
+    behind an ordinary Interest) is never carried along. -/
+theorem only_single_packets_are_dispatched (c : Cfg) (st : LinkSt) (frame : Bytes) (st' : LinkSt) (d : Deliver)
+    (h : handleFrame c st frame = some (st', d)) (hd : d ≠ .nothing) :
+    singleTlv frame = true ∨ singleTlv (fragOf c frame) = true ∨
+    ∃ base idx cnt st'' whole, reassemble st base idx cnt (fragOf c frame) = some (st'', some whole) ∧ singleTlv whole = true :=
+  handleFrame_dispatches_single_tlv c st frame st' d h hd
+
 /-- unconditional form: for every state, decoder and frame -/
 theorem handleFrame_never_panics (c : Cfg) (st : LinkSt) (frame : Bytes) :
     handleFrame c st frame ≠ none := by
